@@ -41,8 +41,8 @@ Section WithCheckpointFn.
         n_c := ch_push (n_c nd) (o_reports o) |},
      o_reports o).
 
-  Definition node_delete (nd : node) (mn mx : N) : bool * node :=
-    let '(ok, v', s') := vdelete_range (n_v nd) (n_store nd) mn mx in
+  Definition node_delete (nd : node) (mn mx : N) (lf : bool) : bool * node :=
+    let '(ok, v', s') := vdelete_range lf (n_v nd) (n_store nd) mn mx in
     let sh' := if ok then shadow_delete (n_store nd) (n_shadow nd) mn mx else n_shadow nd in
     (ok, {| n_v := v'; n_store := s'; n_shadow := sh'; n_fail := n_fail nd; n_c := n_c nd |}).
 
@@ -61,7 +61,7 @@ Section WithCheckpointFn.
 
   Inductive event :=
   | HStore (n : nat) (b : list entry)     (* StoreLogs(b) on node n (one caller: needs no send pending) *)
-  | HDelete (n : nat) (mn mx : N)         (* DeleteRange *)
+  | HDelete (n : nat) (mn mx : N) (lf : bool) (* DeleteRange; lf: its LastIndex read of the store fails *)
   | HRestart (n : nat)                    (* new LogStore over the same store *)
   | HTamper (n : nat) (i : N) (e : entry) (* at-rest corruption *)
   | HFail (n : nat)                       (* arm an underlying StoreLogs failure *)
@@ -71,7 +71,7 @@ Section WithCheckpointFn.
 
   Definition ev_node (ev : event) : nat :=
     match ev with
-    | HStore n _ | HDelete n _ _ | HRestart n | HTamper n _ _ | HFail n
+    | HStore n _ | HDelete n _ _ _ | HRestart n | HTamper n _ _ | HFail n
     | HSend n | HRecv n | HReturn n => n
     end.
 
@@ -81,7 +81,7 @@ Section WithCheckpointFn.
                     | [] => snd (fst (node_store nd b))
                     | _ :: _ => nd
                     end
-    | HDelete _ mn mx => snd (node_delete nd mn mx)
+    | HDelete _ mn mx lf => snd (node_delete nd mn mx lf)
     | HRestart _ => node_restart nd
     | HTamper _ i e => node_tamper nd i e
     | HFail _ => node_arm_fail nd
